@@ -443,7 +443,7 @@ func (in *Interp) runFrame(fr *frame) {
 		}
 		r := recover()
 		if _, isT := r.(targetPanic); !isT {
-			panic(r) // abortPath or engine error: propagate without running target defers
+			panic(r) // abortPath, simulated process death or engine error: propagate without running target defers
 		}
 		fr.panicking = true
 		fr.panicVal = r
